@@ -202,13 +202,16 @@ void disasm_module_to_file(const NvmModule *mod, FILE *out) {
         const char *s = nvm_get_string(mod, i);
         if (s) {
             fprintf(out, ".string \"");
-            /* Escape special characters */
-            for (const char *p = s; *p; p++) {
+            /* Escape special characters; the pool entry may contain NUL bytes, so go by its length */
+            uint32_t slen = mod->string_lengths ? mod->string_lengths[i] : (uint32_t)strlen(s);
+            for (uint32_t k = 0; k < slen; k++) {
+                const char *p = s + k;
                 switch (*p) {
                     case '\n': fprintf(out, "\\n"); break;
                     case '\t': fprintf(out, "\\t"); break;
                     case '\\': fprintf(out, "\\\\"); break;
                     case '"':  fprintf(out, "\\\""); break;
+                    case '\0': fprintf(out, "\\0"); break;
                     default:   fputc(*p, out); break;
                 }
             }
